@@ -24,8 +24,12 @@
 // grants the bit; 0 once every state ID granting it is closed / freed / lost
 // and nothing is in flight; reads and writes succeed while a granting state
 // ID is live and are refused for other files, clients, seqids and closed
-// state; PUTFH of an open (possibly unlinked) file resolves; LOCKT denies
-// exactly when LOCK would, own locks never block, granted locks of different
+// state; a request that fails (also: READ / WRITE / SETATTR that the file
+// system fails with an I/O error, injected into the leaf) leaves no leaf more
+// open than before; PUTFH of an open (possibly unlinked) file resolves; LOCKT
+// denies exactly when LOCK would (interval oracle; and a LOCK sent with current
+// state and sequence IDs under a valid lease is answered with a grant or a
+// conflicting lock, never with another error), own locks never block, granted locks of different
 // owners never share a byte unless both shared (interval oracle on RFC
 // ranges); after all leases expired nothing is retained.
 package nfsstate
@@ -42,7 +46,7 @@ import (
 	"verifharness/internal/hx"
 )
 
-const rule = "multi-client histories against the real NFSv4.0 and NFSv4.1 programs: registration and re-registration with a new verifier, OPEN with every claim/create mode (CLAIM_NULL create/guarded/unchecked/truncate, CLAIM_FH, CLAIM_PREVIOUS), upgrades, OPEN_CONFIRM, OPEN_DOWNGRADE, CLOSE, LOCK with new and existing lock-owners over boundary ranges (0,1,2^63,2^64-2,2^64-1, all-ones lengths), LOCKT, LOCKU, RELEASE_LOCKOWNER / FREE_STATEID, READ/WRITE/SETATTR with open, lock, anonymous, bypass, foreign, stale and forged state IDs parked inside the leaf across CLOSE / expiry, unlinking open files, PUTFH probes, clock advances past the lease, DESTROY_SESSION/CLIENTID; every history ends with all leases expiring; non-trivial = at least one OPEN, one granted LOCK, and one of: I/O in flight across the CLOSE of its state, a lease lapsing or a re-registration while state is held, an upgrade or downgrade; distinct = hash of the executed op list"
+const rule = "multi-client histories against the real NFSv4.0 and NFSv4.1 programs: registration and re-registration with a new verifier, OPEN with every claim/create mode (CLAIM_NULL create/guarded/unchecked/truncate, CLAIM_FH, CLAIM_PREVIOUS), upgrades, OPEN_CONFIRM, OPEN_DOWNGRADE, CLOSE, LOCK with new and existing lock-owners over boundary ranges (0,1,2^63,2^64-2,2^64-1, all-ones lengths, also the refused byte 2^64-1 alone), LOCKT, LOCKU, RELEASE_LOCKOWNER / FREE_STATEID, READ/WRITE/SETATTR with open, lock, anonymous, bypass, foreign, stale and forged state IDs parked inside the leaf across CLOSE / expiry or failed by the file system (I/O error injected into the leaf), LOCKT followed by the LOCK it asks about and retries after a denial, unlinking open files, PUTFH probes, clock advances past the lease, DESTROY_SESSION/CLIENTID; every history ends with all leases expiring; non-trivial = at least one OPEN, one granted LOCK, and one of: I/O in flight across the CLOSE of its state, a lease lapsing or a re-registration while state is held, an upgrade or downgrade; distinct = hash of the executed op list"
 
 const (
 	sigSharedLO41 = "nfs41 CLOSE with a lock-owner shared by two open-owners of one file panics"
@@ -408,16 +412,12 @@ type probe struct {
 
 // The known findings; each is a dedicated history that the random generator
 // cannot produce (it never lets one lock-owner lock one file through two
-// open-owners and never asks for offset 2^64-1 with the all-ones length).
+// open-owners).
 var probes = []probe{
 	{"C18", sigSharedLO41, "one lock-owner locks a file through two open-owners, then one of them closes (NFSv4.1)", []string{
 		"v41", "reg 0 0", "open 1 0 0 1 3 0 h 2 0", "lock 2 1 0 2 0 5", "open 3 0 0 2 3 0 h 2 0", "lock 4 3 0 2 10 5", "close 3"}},
 	{"C18", sigSharedLO40, "one lock-owner locks a file through two open-owners, then one of them closes (NFSv4.0)", []string{
 		"v40", "reg 0 0", "open 1 0 0 1 3 0 n 2 0", "oconf 1", "lock 2 1 0 2 0 5", "open 3 0 0 2 3 0 n 2 0", "oconf 3", "lock 4 3 0 2 10 5", "close 3"}},
-	{"C20", knownRangeSig, "two owners ask for an exclusive lock from offset 2^64-1 to the end of the file (NFSv4.1)", []string{
-		"v41", "reg 0 0", "reg 1 0", "open 1 0 0 1 3 0 h 2 0", "open 2 1 0 1 3 0 h 2 0", "lock 3 1 0 2 max max", "lock 4 2 0 2 max max"}},
-	{"C20", knownRangeSig, "two owners ask for an exclusive lock from offset 2^64-1 to the end of the file (NFSv4.0)", []string{
-		"v40", "reg 0 0", "reg 1 0", "open 1 0 0 1 3 0 n 2 0", "oconf 1", "open 2 1 0 1 3 0 n 2 0", "oconf 2", "lock 3 1 0 2 max max", "lock 4 2 0 2 max max"}},
 }
 
 // regressionHistories: witnesses of repaired defects (must stay clean).
@@ -432,4 +432,23 @@ var regressionHistories = [][]string{
 	// 4815fef: NFSv4.1 FREE_STATEID of a lock state ID that still holds locks (NFS4ERR_LOCKS_HELD, nothing
 	// freed: the lock still blocks another owner; after LOCKU the state ID can be freed)
 	{"v41", "reg 0 0", "open 1 0 0 1 3 0 h 2 0", "lock 2 1 0 2 0 5", "free 2", "lockt 0 0 1 2 2 0 5", "io 3 w 2 2", "locku 2 0 max", "free 2", "io 4 w 2 2"},
+	// the file system fails READ / WRITE / SETATTR (open, lock and anonymous state IDs, also parked across
+	// nothing): NFS4ERR_IO, and whatever was acquired for the I/O is given back; CLOSE closes the leaf
+	{"v41", "reg 0 0", "open 1 0 0 1 3 0 h 2 0", "io 2 w 1 2 fail", "io 3 w -1 2 fail", "io 4 r 1 2 fail", "io 5 s 1 2 fail", "lock 6 1 0 2 0 5",
+		"io 7 w 6 2 fail", "io 8 w 1 2 park fail", "rel 8", "io 9 r -1 2 fail", "io 10 s -1 2 fail", "down 1 1", "close 1"},
+	{"v40", "reg 0 0", "open 1 0 0 1 3 0 n 2 0", "oconf 1", "io 2 w 1 2 fail", "io 3 w -1 2 fail", "io 4 r 1 2 fail", "io 5 s 1 2 fail", "lock 6 1 0 2 0 5",
+		"io 7 w 6 2 fail", "io 8 w 1 2 park fail", "rel 8", "io 9 r -1 2 fail", "io 10 s -1 2 fail", "down 1 1", "close 1"},
+	// a denied first LOCK of a new lock-owner is undone: the retry with new_lock_owner after the holder unlocked
+	// is granted (LOCKT and LOCK agree at every attempt)
+	{"v40", "reg 0 0", "reg 1 0", "open 1 0 0 1 3 0 n 2 0", "oconf 1", "open 2 1 0 1 3 0 n 2 0", "oconf 2", "lock 3 1 0 2 0 100",
+		"lockt 1 0 0 2 2 0 100", "lock 4 2 0 2 0 100", "lockt 1 0 0 2 2 0 100", "lock 5 2 0 2 0 100", "locku 3 0 max", "lockt 1 0 0 2 2 0 100", "lock 6 2 0 2 0 100"},
+	{"v41", "reg 0 0", "reg 1 0", "open 1 0 0 1 3 0 h 2 0", "open 2 1 0 1 3 0 h 2 0", "lock 3 1 0 2 0 100",
+		"lockt 1 0 0 2 2 0 100", "lock 4 2 0 2 0 100", "lockt 1 0 0 2 2 0 100", "lock 5 2 0 2 0 100", "locku 3 0 max", "lockt 1 0 0 2 2 0 100", "lock 6 2 0 2 0 100"},
+	// 3d4b513: two owners ask for an exclusive lock from offset 2^64-1 to the end of the file; both are
+	// refused (NFS4ERR_BAD_RANGE) instead of both being granted the empty range [2^64-1, 2^64-1); LOCKT
+	// and LOCKU of that range are refused as well, the neighbouring byte 2^64-2 .. EOF still locks
+	{"v41", "reg 0 0", "reg 1 0", "open 1 0 0 1 3 0 h 2 0", "open 2 1 0 1 3 0 h 2 0", "lock 3 1 0 2 max max", "lock 4 2 0 2 max max",
+		"lockt 0 0 1 2 2 max max", "lock 5 1 0 2 max-1 max", "lockt 0 0 1 2 2 max-1 1", "locku 5 max max", "locku 5 0 max"},
+	{"v40", "reg 0 0", "reg 1 0", "open 1 0 0 1 3 0 n 2 0", "oconf 1", "open 2 1 0 1 3 0 n 2 0", "oconf 2", "lock 3 1 0 2 max max", "lock 4 2 0 2 max max",
+		"lockt 0 0 1 2 2 max max", "lock 5 1 0 2 max-1 max", "lockt 0 0 1 2 2 max-1 1", "locku 5 max max", "locku 5 0 max"},
 }
